@@ -1,0 +1,7 @@
+//go:build !verif
+
+package service
+
+import "io"
+
+func verifStopped(io.Closer) {}
